@@ -17,7 +17,8 @@ def run(ctx):
     vlib.model_check_many(ctx, [dict(module_rel="sync/PoolMonitor.tla", cfg_rel="sync/PoolMonitor_q.cfg" if ctx.quick() else "sync/PoolMonitor_t.cfg", workers=6, timeout=3000),
                                 dict(module_rel="sync/PoolMonitor.tla", cfg_rel="sync/PoolMonitor_bad_early.cfg", workers=2, expect_violation="Safe"),
                                 dict(module_rel="sync/ReentrantSpin.tla", cfg_rel="sync/ReentrantSpin_q.cfg", workers=4),
-                                dict(module_rel="sync/ReentrantSpin.tla", cfg_rel="sync/ReentrantSpin_bad_order.cfg", workers=2, expect_violation="Safe")], par=4)
+                                dict(module_rel="sync/ReentrantSpin.tla", cfg_rel="sync/ReentrantSpin_bad_order.cfg", workers=2, expect_violation="Safe"),
+                                dict(module_rel="sync/ReentrantSpin.tla", cfg_rel="sync/ReentrantSpin_bad_exchange.cfg", workers=2, expect_violation="Safe")], par=5)      # seeded change C22b
     q = ctx.quick()
     deep = [("dfs", 6000 if q else 400000, 3)]
     jobs = make_jobs(ctx, "lock", PLAIN, PROGRAMS, group_of=lambda v: "plain") + make_jobs(ctx, "lock", ["spin_lock", "lock_array"], PROGRAMS_TRY, group_of=lambda v: "plain") + \
